@@ -365,7 +365,9 @@ def check_cfg(ctx, fx, cfg):
     A = registry_alphabet(fx)
     judged = set()
     for f in users:
-        b = inline.body(ctx, fx, f, inline.not_public) if f["def"] in inl_users else ctx.body(fx, f)
+        # value rules see the operation with its crate-private helpers inlined (the typed wrapper methods of the table, the
+        # lock helper and its closure, lookup helpers): what they do to the map is judged in the operation's own terms
+        b = inline.body(ctx, fx, f, inline.not_public) if (f["def"] in inl_users or inline.inlined(fx, f, inline.not_public)["inlined_from"]) else ctx.body(fx, f)
         root = f.get("root", f["def"])
         short = root.split("::")[-1]
         if root not in OPS and (fx.fn(root) or {}).get("vis") != "pub":
@@ -738,28 +740,25 @@ def check_spawn_on_demand(ctx, fx, f, b, n, inst):
     sp = [t for _, t in b.normal_calls() if nfa.trait_method("actor::spawner::Spawner", "spawn_actor")(t)]
     ok = len(ins) == 1 and len(sp) == 1 and ins_val is not None
     if ok:
-        def from_create(op, field):
-            for o in b.origins(op):
-                pass
-            rs = set()
-            for o in b.origins(op):
+        def from_create(op, field, depth=0):
+            """the operand is field `field` of the create_loop pair, possibly cloned / boxed / wrapped in a newtype on the way"""
+            os_ = b.origins(op)
+            if not os_ or depth > 6:
+                return False
+            for o in os_:
                 if o.kind == "call" and o.site == (cbi,):
-                    rs.add(o.proj[0] if o.proj else None)
-                elif o.kind == "call":
-                    t2 = b.call_at(o)
-                    if t2["args"]:
-                        for o2 in b.origins(t2["args"][0]):
-                            if o2.kind == "call" and o2.site == (cbi,):
-                                rs.add(o2.proj[0] if o2.proj else None)
-                            elif o2.kind == "call":
-                                t3 = b.call_at(o2)
-                                if t3["args"]:
-                                    for o3 in b.origins(t3["args"][0]):
-                                        if o3.kind == "call" and o3.site == (cbi,):
-                                            rs.add(o3.proj[0] if o3.proj else None)
+                    if (o.proj[0] if o.proj else None) != field:
+                        return False
+                elif o.kind == "call" and b.call_at(o)["args"]:
+                    if not from_create(b.call_at(o)["args"][0], field, depth + 1):
+                        return False
+                elif o.kind == "agg":
+                    ops_ = b.blocks[o.site[0]]["s"][o.site[1]]["r"].get("ops") or []
+                    if not ops_ or not all(from_create(x, field, depth + 1) for x in ops_ if x.get("k") in ("move", "copy")):
+                        return False
                 else:
-                    rs.add("other:" + o.kind)
-            return rs == {field}
+                    return False
+            return True
         ok = from_create(ins_val, "f1") and from_create(sp[0]["args"][0], "f0")
     ctx.require(ok, "R08.3", inst + ":inserted-is-spawned", "the address inserted must be the address of the loop that is spawned", fn=f["def"], site=f["loc"])
     _order(ctx, fx, f, n, inst)
